@@ -1,33 +1,253 @@
-(** C20 — ordering delivers each height once, in order; sync ranges cover every missing
-    height exactly once, in ascending order.  Only statements, each closed by [exact]. *)
-From BX Require Import Base.Prelude Model.Ranges Proofs.RangesProofs.
+(** C20 — ordering delivers each height once, in order, also across faults and restarts; sync ranges
+    cover every missing height exactly once, in ascending order.
+    Only statements, each closed by [exact]; Examples (non-vacuity); [_refuted] witnesses. *)
+From BX Require Import Base.Prelude Model.Ranges Proofs.RangesProofs Model.Order Proofs.OrderProofs.
 Local Open Scope N_scope.
 
-(** Block-synchronisation ranges: for every admissible request the loop terminates and the
-    ranges are non-empty, ascending, disjoint and cover [begin..end] exactly. *)
+(** * Block-synchronisation ranges *)
+
+(** The loop as it is now (after the [fix:] commit): for EVERY uint64 request with begin <= end and
+    every fetch > 0 the loop terminates and the ranges are non-empty, ascending, disjoint and cover
+    [begin..end] exactly.  No overflow guard. *)
 Theorem C20_ranges_partition : forall fetch b e,
-  0 < fetch -> b <= e -> e + fetch < W64 ->
-  exists rs, calc_ranges (N.to_nat (e - b) + 1) fetch b e = ROk rs /\ chain b e rs.
-Proof. exact ranges_partition. Qed.
+  0 < fetch -> b <= e -> e < W64 ->
+  exists rs, calc_ranges_fx (N.to_nat (e - b) + 1) fetch b e = ROk rs /\ Ranges.chain b e rs.
+Proof. exact ranges_partition_fx. Qed.
 Print Assumptions C20_ranges_partition.
 
-Theorem C20_ranges_each_height_once : forall rs b e h, chain b e rs ->
+Theorem C20_ranges_each_height_once : forall rs b e h, Ranges.chain b e rs ->
   cover_count h rs = if (b <=? h) && (h <=? e) then 1%nat else 0%nat.
 Proof. exact chain_cover. Qed.
 Print Assumptions C20_ranges_each_height_once.
 
-Theorem C20_ranges_refused : forall fuel fetch b e, e < b -> calc_ranges fuel fetch b e = RErr.
-Proof. exact ranges_refused. Qed.
+Theorem C20_ranges_refused : forall fuel fetch b e, e < b -> calc_ranges_fx fuel fetch b e = RErr.
+Proof. exact ranges_refused_fx. Qed.
 Print Assumptions C20_ranges_refused.
 
-(** outside the guard the property fails on the faithful model (uint64 wrap-around) *)
+(** the loop as it was: partition only under the guard end + fetch < 2^64 ... *)
+Theorem C20_ranges_partition_old_guarded : forall fetch b e,
+  0 < fetch -> b <= e -> e + fetch < W64 ->
+  exists rs, calc_ranges (N.to_nat (e - b) + 1) fetch b e = ROk rs /\ Ranges.chain b e rs.
+Proof. exact ranges_partition. Qed.
+Print Assumptions C20_ranges_partition_old_guarded.
+
+(** ... and a refutation outside it (uint64 wrap-around: descending first range, no termination) *)
 Theorem C20_ranges_overflow_refuted :
   exists fetch b e, 0 < fetch /\ b <= e /\ e < W64 /\
     ranges_loop 6 fetch b e (b / fetch) = None /\ range_end fetch e (b / fetch) < b.
 Proof. exact ranges_overflow_refuted. Qed.
 Print Assumptions C20_ranges_overflow_refuted.
 
-(** non-vacuity: a concrete admissible request *)
 Example C20_ranges_example :
-  calc_ranges 10 5 3 23 = ROk [(3, 5); (6, 10); (11, 15); (16, 20); (21, 23)].
+  calc_ranges_fx 10 5 3 23 = ROk [(3, 5); (6, 10); (11, 15); (16, 20); (21, 23)].
+Proof. vm_compute. reflexivity. Qed.
+
+(** the witness of the old defect on the repaired loop *)
+Example C20_ranges_example_maxuint :
+  calc_ranges_fx 10 4 (W64 - 3) (W64 - 1) = ROk [(W64 - 3, W64 - 1)]
+  /\ calc_ranges_fx 10 1 (W64 - 3) (W64 - 1) = ROk [(W64 - 3, W64 - 2); (W64 - 1, W64 - 1)].
+Proof. split; vm_compute; reflexivity. Qed.
+
+(** * Raft replica: all interleavings of Append / Ready (Deliver, LeaderChange) / Exec / Report /
+    Crash / Propose on one replica.  [rrun ... = Some tr] says that the op sequence is one the
+    environment can produce (etcd-raft hands out no gap and nothing that is not stored, only
+    executed heights are reported); [tr] is what the driver observes. *)
+
+(** C20_contiguous: in every incarnation the heights handed to the executor are e+1, e+2, ... from
+    the executed height the incarnation started with.  For every flag setting and every log. *)
+Theorem C20_contiguous : forall d c lg ops tr,
+  rrun d c lg (init_sys d c) ops = Some tr -> contiguous (shadow_init (c_init c)) ops tr.
+Proof. exact contiguous_all. Qed.
+Print Assumptions C20_contiguous.
+
+(** ... each log entry at most once per incarnation: the (ghost) indices of the entries handed over in
+    one Ready are strictly increasing and lie in (applied before, applied after], and the applied
+    index never goes back except by a crash *)
+Theorem C20_entry_once_per_ready : forall d c lg s lo hi app lead s' o,
+  rstep d c lg s (OReady lo hi app lead) = Some (s', o) ->
+  increasing_after (applied (mem s)) (map fst (o_ev o))
+  /\ Forall (fun i => i <= applied (mem s')) (map fst (o_ev o))
+  /\ applied (mem s) <= applied (mem s').
+Proof. exact ready_entry_once. Qed.
+Print Assumptions C20_entry_once_per_ready.
+
+Theorem C20_applied_monotone : forall d c lg s op s' o,
+  rstep d c lg s op = Some (s', o) -> op <> OCrash -> applied (mem s) <= applied (mem s').
+Proof. exact applied_mono. Qed.
+Print Assumptions C20_applied_monotone.
+
+(** C20_replay_skipped: whatever the crash point, nothing at or below the executed height is ever
+    handed to the executor again.  For every flag setting and every log. *)
+Theorem C20_replay_skipped : forall d c lg ops tr,
+  rrun d c lg (init_sys d c) ops = Some tr -> above_executed (shadow_init (c_init c)) ops tr.
+Proof. exact above_executed_all. Qed.
+Print Assumptions C20_replay_skipped.
+
+(** C20_none_skipped: whenever the replica has applied the log up to index i it has handed over (or found
+    executed) every block of the canonical chain of the first i entries.
+    Hypotheses: [safe] = repaired restart, or the code as it is on a log without entries from the
+    future; no snapshot ahead of execution (the code as it is after the [fix:] commit). *)
+Theorem C20_none_skipped : forall d c lg ops tr,
+  safe d c lg -> d_snap_unexecuted d = false ->
+  rrun d c lg (init_sys d c) ops = Some tr -> none_skipped (c_init c) lg tr.
+Proof. exact none_skipped_all. Qed.
+Print Assumptions C20_none_skipped.
+
+(** every block handed over is the block of the log's canonical chain at its height ... *)
+Theorem C20_canonical : forall d c lg ops tr,
+  safe d c lg -> d_snap_unexecuted d = false ->
+  rrun d c lg (init_sys d c) ops = Some tr -> canonical (c_init c) lg tr.
+Proof. exact canonical_all. Qed.
+Print Assumptions C20_canonical.
+
+(** ... the executed blocks are a prefix of that chain (nothing skipped, nothing twice, across crashes) ... *)
+Theorem C20_executed_prefix : forall d c lg ops tr,
+  safe d c lg -> d_snap_unexecuted d = false ->
+  rrun d c lg (init_sys d c) ops = Some tr ->
+  is_prefix (executed (shadow_init (c_init c)) ops tr) (canon_blocks (c_init c) lg).
+Proof. exact executed_prefix. Qed.
+Print Assumptions C20_executed_prefix.
+
+(** C20_same_content: two replicas (different ids, snapshot counts, schedules, crash points) applying the
+    same log from the same height hand over identical (height, txs).  The shared log is the
+    hypothesis on etcd-raft (log matching): both runs are over the same [lg]. *)
+Theorem C20_same_content : forall d c1 c2 lg ops1 ops2 tr1 tr2,
+  c_init c1 = c_init c2 -> safe d c1 lg -> d_snap_unexecuted d = false ->
+  rrun d c1 lg (init_sys d c1) ops1 = Some tr1 -> rrun d c2 lg (init_sys d c2) ops2 = Some tr2 ->
+  forall a b, In a (all_events tr1) -> In b (all_events tr2) -> fst a = fst b -> a = b.
+Proof. exact same_content. Qed.
+Print Assumptions C20_same_content.
+
+(** C20_tx_once_partial: a transaction is in at most one delivered block PROVIDED the batches in the log are
+    pairwise disjoint and duplicate-free.  One leader's pool guarantees that for its own proposals
+    (C18_no_double); across leader changes nothing in the ordering code does: the new leader's pool
+    neither knows the batches of the old leader that are still in flight nor the delivered blocks
+    whose ReportState has not arrived, and [justElected] is not consulted when batching
+    (finding C20-raft-new-leader-rebatches-delivered-tx). *)
+Theorem C20_tx_once_partial : forall init lg tr,
+  log_tx_disjoint lg -> canonical init lg tr -> tx_once tr.
+Proof. exact tx_once_of_canonical. Qed.
+Print Assumptions C20_tx_once_partial.
+
+(** leader change: the Ready that makes the replica leader resets the batch sequence to lastExec;
+    justElected stays set exactly while stored entries are in flight *)
+Theorem C20_new_leader_seq : forall d c lg s lo hi app l s' o,
+  rstep d c lg s (OReady lo hi app (Some l)) = Some (s', o) ->
+  l = c_id c -> l <> leader (mem s) ->
+  seqNo (mem s') = lastExec (mem s') /\ leader (mem s') = c_id c
+  /\ justElected (mem s') = (applied (mem s') + 1 <? app).
+Proof. exact new_leader_seq. Qed.
+Print Assumptions C20_new_leader_seq.
+
+(** * Solo *)
+Theorem C20_solo_contiguous : forall d init ops,
+  solo_contiguous (shadow_init init) ops (srun d (init_ssys init) ops).
+Proof. intros d init ops. apply solo_contiguous_all. apply sshadow_init_ok. Qed.
+Print Assumptions C20_solo_contiguous.
+
+Theorem C20_solo_reported_leave_pool : forall d ops init,
+  d_solo_commit10 d = false -> solo_commits ops (srun d (init_ssys init) ops).
+Proof. intros d ops init H. apply solo_commits_all. exact H. Qed.
+Print Assumptions C20_solo_reported_leave_pool.
+
+(** * Reflection: the boolean predicates the judge evaluates are the predicates of the theorems *)
+Theorem C20_reflect_contiguous : forall ops sh tr, contiguous_b sh ops tr = true <-> contiguous sh ops tr.
+Proof. exact contiguous_b_spec. Qed.
+Theorem C20_reflect_canonical : forall init lg tr, canonical_b init lg tr = true <-> canonical init lg tr.
+Proof. exact canonical_b_spec. Qed.
+Theorem C20_reflect_prefix : forall a b, is_prefix_b a b = true <-> is_prefix a b.
+Proof. exact is_prefix_b_spec. Qed.
+Theorem C20_reflect_none_skipped : forall init lg tr, none_skipped_b init lg tr = true <-> none_skipped init lg tr.
+Proof. exact none_skipped_b_spec. Qed.
+Theorem C20_reflect_tx_once : forall tr, tx_once_b tr = true <-> tx_once tr.
+Proof. exact tx_once_b_spec. Qed.
+Theorem C20_reflect_above_executed : forall ops sh tr, above_executed_b sh ops tr = true <-> above_executed sh ops tr.
+Proof. exact above_executed_b_spec. Qed.
+Theorem C20_reflect_solo_contiguous : forall ops sh tr, solo_contiguous_b sh ops tr = true <-> solo_contiguous sh ops tr.
+Proof. exact solo_contiguous_b_spec. Qed.
+Theorem C20_reflect_solo_commits : forall ops tr, solo_commits_b ops tr = true <-> solo_commits ops tr.
+Proof. exact solo_commits_b_spec. Qed.
+Theorem C20_reflect_nogap : forall l c, nogap_from_b c l = true <-> nogap_from c l.
+Proof. exact nogap_from_b_spec. Qed.
+Print Assumptions C20_reflect_contiguous.
+
+(** * Witnesses *)
+Definition w_cfg : rcfg := {| c_id := 1; c_snap := 1000; c_init := 1 |}.
+(** a log with a batch from the future at index 2 *)
+Definition w_log : rlog := [EBatch 2 [100]; EBatch 4 [300]; EBatch 3 [101]; EBatch 4 [102]].
+(** deliver 1..3, execute both blocks, crash before any report, replay *)
+Definition w_ops : list rop :=
+  [OAppend; OAppend; OAppend; OAppend; OReady 1 3 3 (Some 2); OExec; OExec; OCrash; OReady 1 4 4 None].
+
+(** the faithful restart hands over the stale batch as block 4: other replicas get [102] *)
+Theorem C20_restart_height_only_refuted :
+  exists tr, rrun only_restart w_cfg w_log (init_sys only_restart w_cfg) w_ops = Some tr
+             /\ canonical_b (c_init w_cfg) w_log tr = false
+             /\ In (4, [300]) (all_events tr).
+Proof. eexists. split; [vm_compute; reflexivity|]. split; [vm_compute; reflexivity|]. vm_compute. tauto. Qed.
+Print Assumptions C20_restart_height_only_refuted.
+
+(** non-vacuity of the main theorems: the same history on the repaired restart (a log WITH a
+    gap, crash between execute and report) is a run, and hands over [102] *)
+Example C20_example_fixed :
+  exists tr, rrun cfg_fixed w_cfg w_log (init_sys cfg_fixed w_cfg) w_ops = Some tr
+             /\ raft_prop_b (c_init w_cfg) w_log w_ops tr = 0
+             /\ all_events tr = [(2, [100]); (3, [101]); (4, [102])]
+             /\ safe cfg_fixed w_cfg w_log.
+Proof.
+  eexists. split; [vm_compute; reflexivity|]. split; [vm_compute; reflexivity|].
+  split; [vm_compute; reflexivity|]. left. reflexivity.
+Qed.
+
+(** non-vacuity of the characterisation (the code as it is, log without entries from the future):
+    stale duplicates, a crash with the report lagging, replay *)
+Definition w_log2 : rlog := [EBatch 2 [100]; EBatch 2 [200]; EBatch 3 [101]; EEmpty; EBatch 3 [300]; EBatch 4 [102]].
+Definition w_ops2 : list rop :=
+  [OAppend; OAppend; OAppend; OAppend; OAppend; OAppend; OReady 1 3 5 (Some 1); OExec; OReport 2; OExec; OCrash;
+   OReady 1 6 6 (Some 1); OPropose 2; OExec; OReport 4; OCrash; OReady 1 6 6 None].
+Example C20_example_current :
+  exists tr, rrun only_restart w_cfg w_log2 (init_sys only_restart w_cfg) w_ops2 = Some tr
+             /\ raft_prop_b (c_init w_cfg) w_log2 w_ops2 tr = 0
+             /\ all_events tr = [(2, [100]); (3, [101]); (4, [102])]
+             /\ safe only_restart w_cfg w_log2.
+Proof.
+  eexists. split; [vm_compute; reflexivity|]. split; [vm_compute; reflexivity|].
+  split; [vm_compute; reflexivity|]. right. apply nogap_from_b_spec. vm_compute. reflexivity.
+Qed.
+
+(** snapshot ahead of execution (the defect repaired by the [fix:] commit): blocks 3 and 4 are lost *)
+Definition w_cfg_s : rcfg := {| c_id := 1; c_snap := 2; c_init := 1 |}.
+Definition w_log_s : rlog := [EBatch 2 [100]; EBatch 3 [101]; EBatch 4 [102]; EBatch 5 [103]].
+Definition w_ops_s : list rop :=
+  [OAppend; OAppend; OAppend; OAppend; OReady 1 3 3 None; OExec; OCrash; OReady 4 4 4 None].
+Theorem C20_snap_unexecuted_refuted :
+  exists tr, rrun only_snap w_cfg_s w_log_s (init_sys only_snap w_cfg_s) w_ops_s = Some tr
+             /\ none_skipped_b (c_init w_cfg_s) w_log_s tr = false.
+Proof. eexists. split; vm_compute; reflexivity. Qed.
+Print Assumptions C20_snap_unexecuted_refuted.
+
+Example C20_example_snap_fixed :
+  exists tr, rrun cfg_fixed w_cfg_s w_log_s (init_sys cfg_fixed w_cfg_s)
+               [OAppend; OAppend; OAppend; OAppend; OReady 1 3 3 None; OExec; OCrash; OReady 1 4 4 None] = Some tr
+             /\ none_skipped_b (c_init w_cfg_s) w_log_s tr = true
+             /\ all_events tr = [(2, [100]); (3, [101]); (4, [102]); (3, [101]); (4, [102]); (5, [103])].
+Proof. eexists. split; [vm_compute; reflexivity|]. split; vm_compute; reflexivity. Qed.
+
+(** two transactions in one log, no hypothesis on the log: tx_once needs [log_tx_disjoint] *)
+Theorem C20_tx_once_needs_disjoint_log :
+  exists lg ops tr, rrun cfg_fixed w_cfg lg (init_sys cfg_fixed w_cfg) ops = Some tr
+                    /\ canonical_b (c_init w_cfg) lg tr = true /\ tx_once_b tr = false.
+Proof.
+  exists [EBatch 2 [100]; EBatch 3 [100; 200]], [OAppend; OAppend; OReady 1 2 2 None]. eexists.
+  split; [vm_compute; reflexivity|]. split; vm_compute; reflexivity.
+Qed.
+
+(** solo *)
+Theorem C20_solo_commit10_refuted :
+  solo_commits_b [STx 100; SExec; SReport 2] (srun only_solo10 (init_ssys 1) [STx 100; SExec; SReport 2]) = false.
+Proof. vm_compute. reflexivity. Qed.
+
+Example C20_solo_example :
+  map so_ev (srun cfg_fixed (init_ssys 8) [STx 100; STx 200; SExec; SReport 9; SInject 12 [300]; STx 400; SCrash; STx 500])
+  = [[(9, [100])]; [(10, [200])]; []; []; []; []; []; [(10, [500])]].
 Proof. vm_compute. reflexivity. Qed.
